@@ -196,6 +196,19 @@ class Program:
         for m in self.modules.values():
             for c in m.classes.values():
                 c.bases = [self._resolve_base(m, b) for b in c.base_exprs]
+        # module-level constants written as closed expressions are read as their literal (sa/constfold.py)
+        from .constfold import fold_module
+
+        for m in self.modules.values():
+            top: Dict[str, int] = {}
+            for n in ast.walk(m.tree):
+                # names bound more than once anywhere in the module (re-assigned, `global`) keep their written value
+                if isinstance(n, ast.Name) and isinstance(n.ctx, (ast.Store, ast.Del)) and n.id in m.assigns:
+                    top[n.id] = top.get(n.id, 0) + 1
+                elif isinstance(n, ast.Global):
+                    for g_ in n.names:
+                        top[g_] = top.get(g_, 0) + 2
+            fold_module(m.assigns, multiply_bound={k for k, v in top.items() if v > 1})
 
     def _scan_toplevel(self, m: ModuleInfo, stmt: ast.stmt) -> None:
         if isinstance(stmt, ast.Import):
